@@ -228,3 +228,209 @@ def set_path(v, path, new):
         f[p[1]] = set_path(f[p[1]], path[1:], new)
         return tuple(f)
     raise TypeError("set step %r" % (p,))
+
+
+# ------------------------------------------------------------------ exact finite-valued floats ("grid floats")
+import numpy as _np
+import struct as _struct
+
+_np.seterr(all='ignore')
+
+
+def _npty(sort):
+    return _np.float32 if sort == F32 else _np.float64
+
+
+def _bits(v):
+    if isinstance(v, _np.float32):
+        return (32, _struct.unpack('<I', _struct.pack('<f', float(v)))[0])
+    return (64, _struct.unpack('<Q', _struct.pack('<d', float(v)))[0])
+
+
+def np_to_z3(v, sort):
+    f = float(v)
+    if f != f:
+        return z3.fpNaN(sort)
+    if f == float('inf'):
+        return z3.fpPlusInfinity(sort)
+    if f == float('-inf'):
+        return z3.fpMinusInfinity(sort)
+    if f == 0.0 and _np.signbit(v):
+        return z3.fpMinusZero(sort)
+    return z3.FPVal(f, sort)
+
+
+def z3_to_np(v, sort):
+    """z3 FP numeral -> numpy scalar (exact)"""
+    s = z3.simplify(z3.fpToIEEEBV(v))
+    if not z3.is_bv_value(s):
+        return None
+    n = s.as_long()
+    if sort == F32:
+        return _np.float32(_struct.unpack('<f', _struct.pack('<I', n))[0])
+    return _np.float64(_struct.unpack('<d', _struct.pack('<Q', n))[0])
+
+
+FS_ARITH = {'add': lambda a, b: a + b, 'sub': lambda a, b: a - b, 'mul': lambda a, b: a * b, 'div': lambda a, b: a / b,
+            'max': lambda a, b: b if a != a else (a if b != b else (a if a >= b else b)),
+            'min': lambda a, b: b if a != a else (a if b != b else (a if a <= b else b))}
+FS_REL = {'lt': lambda a, b: bool(a < b), 'le': lambda a, b: bool(a <= b), 'gt': lambda a, b: bool(a > b),
+          'ge': lambda a, b: bool(a >= b), 'eq': lambda a, b: bool(a == b), 'ne': lambda a, b: bool(a != b)}
+FS_UN = {'neg': lambda a: -a, 'abs': lambda a: abs(a), 'sqrt': lambda a: _np.sqrt(a), 'floor': lambda a: _np.floor(a)}
+Z3_ARITH = {'add': lambda a, b: z3.fpAdd(RNE, a, b), 'sub': lambda a, b: z3.fpSub(RNE, a, b), 'mul': lambda a, b: z3.fpMul(RNE, a, b),
+            'div': lambda a, b: z3.fpDiv(RNE, a, b),
+            'max': lambda a, b: z3.If(z3.fpIsNaN(a), b, z3.If(z3.fpIsNaN(b), a, z3.If(z3.fpGEQ(a, b), a, b))),
+            'min': lambda a, b: z3.If(z3.fpIsNaN(a), b, z3.If(z3.fpIsNaN(b), a, z3.If(z3.fpLEQ(a, b), a, b)))}
+Z3_REL = {'lt': z3.fpLT, 'le': z3.fpLEQ, 'gt': z3.fpGT, 'ge': z3.fpGEQ, 'eq': z3.fpEQ, 'ne': lambda a, b: z3.Not(z3.fpEQ(a, b))}
+Z3_UN = {'neg': z3.fpNeg, 'abs': z3.fpAbs, 'sqrt': lambda a: z3.fpSqrt(RNE, a), 'floor': lambda a: z3.fpRoundToIntegral(z3.RTN(), a)}
+
+
+class FSet:
+    """a float that takes one of finitely many concrete values, each under a z3 condition (mutually exclusive,
+    jointly exhaustive). Arithmetic is folded per value with IEEE-754 binary32/binary64 operations (numpy scalars,
+    round-to-nearest-even: the same results z3's FP theory gives on numerals), so the solver only sees the Boolean
+    structure over the selector variables - exact float semantics without bit-blasting floating point."""
+    __slots__ = ("sort", "cases")
+    LIMIT = 20000
+
+    def __init__(self, sort, cases):
+        self.sort = sort
+        merged = {}
+        order = []
+        for v, c in cases:
+            if z3.is_false(c):
+                continue
+            key = _bits(v)
+            if key in merged:
+                merged[key] = (v, z3.Or(merged[key][1], c))
+            else:
+                merged[key] = (v, c)
+                order.append(key)
+        self.cases = [merged[k] for k in order]
+        if len(self.cases) > FSet.LIMIT:
+            raise OverflowError("FSet with %d distinct values" % len(self.cases))
+
+    @staticmethod
+    def const(v):
+        sort = v.sort()
+        return FSet(sort, [(z3_to_np(v, sort), z3.BoolVal(True))])
+
+    @staticmethod
+    def select(sel, values, sort=None):
+        """value values[i] when bit-vector sel == i (last value otherwise)"""
+        sort = F32 if sort is None else sort
+        ty = _npty(sort)
+        cases = []
+        rest = []
+        for i, x in enumerate(values[:-1]):
+            assert float(ty(x)) == float(x), "grid value %r is not exactly representable" % (x,)
+            cases.append((ty(x), sel == i))
+            rest.append(sel != i)
+        cases.append((ty(values[-1]), z3.And(rest) if rest else z3.BoolVal(True)))
+        return FSet(sort, cases)
+
+    def to_z3(self):
+        e = np_to_z3(self.cases[-1][0], self.sort)
+        for v, c in reversed(self.cases[:-1]):
+            e = z3.If(c, np_to_z3(v, self.sort), e)
+        return e
+
+    def map(self, op, sort=None):
+        sort = self.sort if sort is None else sort
+        ty = _npty(sort)
+        if op == 'to':
+            return FSet(sort, [(ty(v), c) for v, c in self.cases])
+        return FSet(sort, [(ty(FS_UN[op](v)), c) for v, c in self.cases])
+
+    def __repr__(self):
+        return "FSet(%s)" % ", ".join(str(v) for v, _ in self.cases[:8])
+
+
+def as_fset(x):
+    if isinstance(x, FSet):
+        return x
+    if z3.is_fp_value(x):
+        return FSet.const(x)
+    return None
+
+
+def both_fset(a, b):
+    return (isinstance(a, FSet) or isinstance(b, FSet)) and (isinstance(a, FSet) or z3.is_fp_value(a)) and (isinstance(b, FSet) or z3.is_fp_value(b))
+
+
+def fs_bin(op, a, b):
+    """arithmetic on two grid floats -> grid float"""
+    A, B = as_fset(a), as_fset(b)
+    f = FS_ARITH[op]
+    ty = _npty(A.sort)
+    out = []
+    for va, ca in A.cases:
+        for vb, cb in B.cases:
+            out.append((ty(f(va, vb)), _and(ca, cb)))
+    return FSet(A.sort, out)
+
+
+def _and(a, b):
+    if z3.is_true(a):
+        return b
+    if z3.is_true(b):
+        return a
+    return z3.And(a, b)
+
+
+def fs_rel(op, a, b):
+    """relation on two grid floats -> z3 Bool"""
+    A, B = as_fset(a), as_fset(b)
+    f = FS_REL[op]
+    out = []
+    for va, ca in A.cases:
+        for vb, cb in B.cases:
+            if f(va, vb):
+                out.append(_and(ca, cb))
+    if not out:
+        return z3.BoolVal(False)
+    return z3.simplify(z3.Or(out)) if len(out) > 1 else out[0]
+
+
+def fs_ite(cond, a, b):
+    A, B = as_fset(a), as_fset(b)
+    nc = z3.Not(cond)
+    return FSet(A.sort, [(v, _and(cond, c)) for v, c in A.cases] + [(v, _and(nc, c)) for v, c in B.cases])
+
+
+def isfp(x):
+    return isinstance(x, FSet) or z3.is_fp(x)
+
+
+def fp_plain(x):
+    return x.to_z3() if isinstance(x, FSet) else x
+
+
+def f_arith(op, a, b):
+    if both_fset(a, b):
+        return fs_bin(op, a, b)
+    return Z3_ARITH[op](fp_plain(a), fp_plain(b))
+
+
+def f_rel(op, a, b):
+    if both_fset(a, b):
+        return fs_rel(op, a, b)
+    return Z3_REL[op](fp_plain(a), fp_plain(b))
+
+
+def f_un(op, a):
+    if isinstance(a, FSet):
+        return a.map(op)
+    return Z3_UN[op](a)
+
+
+def f_ite(c, a, b):
+    if both_fset(a, b):
+        return fs_ite(c, a, b)
+    return z3.If(c, fp_plain(a), fp_plain(b))
+
+
+def f_to(a, sort):
+    if isinstance(a, FSet):
+        return a.map('to', sort)
+    return z3.fpFPToFP(RNE, a, sort)
